@@ -211,7 +211,7 @@ fn scenario(seed: u64, case: u64, out: &mut Vec<String>) {
     let prefix = if rng.chance(1, 2) { Some(rng.pick(&["pre", "a:b", "_x"]).to_string()) } else { None };
     let labels = if rng.chance(1, 2) {
         let mut m = HashMap::new();
-        for n in ["zone", "host", "w"].iter().take(1 + rng.usize_below(3)) {
+        for n in ["zone", "host", "w", "az", "cluster"].iter().take(1 + rng.usize_below(5)) {
             m.insert(n.to_string(), pools::any_string(&mut rng));
         }
         Some(m)
@@ -226,7 +226,8 @@ fn scenario(seed: u64, case: u64, out: &mut Vec<String>) {
     for i in 0..nobj {
         let name = format!("m{}_{}", i, rng.pick(&["a", "b:c", "total"]));
         let mut cl = HashMap::new();
-        for n in ["ca", "cb"].iter().take(rng.usize_below(3)) {
+        let nconst = if rng.chance(1, 6) { 4 + rng.usize_below(3) } else { rng.usize_below(3) };
+        for n in ["ca", "cb", "cc", "cd", "ce", "cf"].iter().take(nconst) {
             cl.insert(n.to_string(), pools::any_string(&mut rng));
         }
         let help = format!("h{}", pools::any_string(&mut rng));
